@@ -3327,7 +3327,14 @@ class TensorDict(TensorDictBase):
                 ),
                 source={},
                 names=(
-                    (self.names if self._has_names() else None)
+                    # dim names describe the batch dims: they do not survive a batch size
+                    # with another number of dims
+                    (
+                        self.names
+                        if self._has_names()
+                        and (batch_size is None or len(batch_size) == self.batch_dims)
+                        else None
+                    )
                     if names is NO_DEFAULT
                     else names
                 ),
